@@ -42,6 +42,11 @@ open Pandora.Generated.KernelsCvMasked
 theorem gridOutside_iff (d lo hi : ℚ) : gridOutside d lo hi = true ↔ (d < lo ∨ hi < d) := by
   unfold gridOutside
   simp only [Bool.or_eq_true, decide_eq_true_eq, gt_iff_lt]
+  first
+    | done
+    | exact Iff.rfl
+    | exact or_comm
+    | (constructor <;> intro h <;> rcases h with h | h <;> first | exact Or.inl h | exact Or.inr h)
 
 /-- at the sample `k / sp`, against integer bounds, the generated test is the model's integer test -/
 theorem gridOutside_eq (k a b : Int) (sp : Nat) (hs : 0 < sp) :
